@@ -29,6 +29,7 @@ inductive HOutcome where
 /-- What the caller observes. -/
 inductive Observed where
   | ok (v : Val)
+  | okNil                              -- `(nil, nil)`: a struct-returning handler returned the nil pointer
   | void
   | exc (id : Int) (e : Val)
   | app (ty : Nat)                     -- TApplicationException of this type
@@ -74,7 +75,14 @@ def call (d : Defs) (n : Nat) (key : String) (oneway : Bool) (args : Val) (h : V
             | none => match fs with
               | (i, e) :: _ => .exc i e
               | [] => match lookupStruct d (key ++ "_result") with
-                | some sd => if sd.fields.any (·.id = 0) then .app missingResult else .void
+                | some sd =>
+                  if sd.fields.any (·.id = 0) then
+                    -- nothing set in the result struct: for a struct-typed `success` the emitted Go client
+                    -- returns `result.Success` = nil with a nil error (a handler answering `(nil, nil)`)
+                    match (sd.fields.find? (·.id = 0)).map (fun f => resolve d f.ty) with
+                    | some (.struct _) => .okNil
+                    | _ => .app missingResult
+                  else .void
                 | none => .crashed
           | .ok _ => .crashed
           | .err e => .failed e
